@@ -200,18 +200,26 @@ def lu_growth(Af):
 
 
 def float_plain_lu_zero_pivot(Af):
-    """plain Doolittle elimination carried out in floating point meets a pivot that is exactly 0.0 (then lu_solve of the
-    pinned tree raises; the known finding is about the other breakdown cases, where rounding leaves a tiny non-zero pivot)"""
-    A = [[float(x) for x in r] for r in Af]
-    n = len(A)
-    for c in range(n):
-        if A[c][c] == 0.0:
-            return True
-        for r in range(c + 1, n):
-            f = A[r][c] / A[c][c]
-            for k in range(c, n):
-                A[r][k] -= f * A[c][k]
-    return False
+    """Doolittle elimination without row exchanges, carried out in floating point in the operation order of the pinned
+    geomdl._linalg.doolittle (sums over j < i, then one division), meets a pivot that is exactly 0.0.  Only used as a FEATURE that
+    delimits the known finding F-C16-lu-solve-breakdown: with an exactly zero pivot the pinned lu_solve raises (accepted); the
+    finding is about the other breakdowns, where rounding leaves a tiny non-zero pivot and a wrong solution is returned."""
+    a = [[float(x) for x in r] for r in Af]
+    n = len(a)
+    u = [[0.0] * n for _ in range(n)]
+    l = [[0.0] * n for _ in range(n)]
+    for i in range(n):
+        for k in range(i, n):
+            u[i][k] = float(a[i][k] - sum([l[i][j] * u[j][k] for j in range(0, i)]))
+            if i == k:
+                l[i][i] = 1.0
+            else:
+                l[k][i] = float(a[k][i] - sum([l[k][j] * u[j][i] for j in range(0, i)]))
+                try:
+                    l[k][i] /= float(u[i][i])
+                except ZeroDivisionError:
+                    l[k][i] = 0.0
+    return any(u[i][i] == 0.0 for i in range(n))
 
 
 def matrix_features(Af, family, singular):
